@@ -28,6 +28,7 @@ type flowScn struct {
 	ReadBuf int    `json:"readbuf"`
 	Split   bool   `json:"split"`
 	Writer  string `json:"writer"` // how the client's ResponseWriter offers flushing: "", "mw", "errflusher", "unwrap"
+	Carry   bool   `json:"carry"`  // each handler Write of reply k also carries the first 3 bytes of reply k+1's envelope
 }
 
 type flowObs struct {
@@ -244,6 +245,16 @@ func init() {
 					reqOK = false
 				}
 				out := rn.respFrame(scn.Hd.Frames[k-1], codec, fs.HdComp, 0)
+				if fs.Carry {
+					// (a relay copying through a fixed buffer: message boundaries and Write boundaries do not coincide)
+					if k > 1 {
+						out = out[3:] // the first 3 bytes went out with the previous Write
+					}
+					if k < fs.Rounds {
+						next := rn.respFrame(scn.Hd.Frames[k], codec, fs.HdComp, 0)
+						out = append(append([]byte(nil), out...), next[:3]...)
+					}
+				}
 				if fs.Split {
 					_, _ = w.Write(out[:3])
 					_, _ = w.Write(out[3:])
